@@ -241,7 +241,7 @@ func rulePools(c *Ctx) {
 		for _, ef := range sp.Effects {
 			if ef.Kind == "store" && encAtom == "" {
 				if v := ef.Val.String(); strings.Contains(v, ".(sync.Pool).Get()") {
-					getPool = v[:strings.Index(v, ".(sync.Pool).Get()")]
+					getPool = strings.TrimPrefix(v[:strings.Index(v, ".(sync.Pool).Get()")], "&")
 					encAtom = v
 				}
 			}
